@@ -946,6 +946,18 @@ pub fn tree_spec_for(prop: &str) -> TreeSpec {
             time_ops: false,
             preds: vec!["consistent", "walk"],
         },
+        "C07" => TreeSpec {
+            prop: prop.into(),
+            configs: vec!["alt(mem)", "alt(phys)", "alt(alt(mem))", "alt(ovl(mem,mem))"],
+            corr_level: 1,
+            spec_results: true,
+            spec_snapshots: true,
+            wrong_type_calls: false,
+            root_calls: false,
+            composite_ops: true,
+            time_ops: false,
+            preds: vec!["failed-unchanged"],
+        },
         "C09" => TreeSpec {
             prop: prop.into(),
             configs: ovl_cfgs,
